@@ -114,8 +114,8 @@ def hashed {K V : Type} [DecidableEq K] [DecidableEq V] (h : K → Nat) (kc : Co
     | some i =>
       let a := sl.getD i (HashMap.empty Gen.HashMap.defaultBuckets)
       match op, args with
-      | "new", [n] => match n.toNat? with
-        | some n => if n < 1 ∨ n > 65536 then bad else (sl.set! i (HashMap.empty (HashMap.nextPoT n)), "ok 0")
+      | "new", [n] => match n.toInt? with
+        | some n => if n < -3 ∨ n > 65536 then bad else (sl.set! i (HashMap.ofSize n), "ok 0")
         | none => bad
       | "set", [k, v] => match kc.parse k, vc.parse v with
         | some k, some v => let a' := HashMap.assign h dflt a k v; (sl.set! i a', s!"ok {a'.n}")
@@ -176,8 +176,8 @@ def sets {K : Type} [DecidableEq K] (h : K → Nat) (kc : Codec K)
     | some i =>
       let a := sl.getD i E
       match op, args with
-      | "new", [n] => match n.toNat? with
-        | some n => if n < 1 ∨ n > 65536 then bad else (sl.set! i (HashMap.empty (HashMap.nextPoT n)), "ok 0")
+      | "new", [n] => match n.toInt? with
+        | some n => if n < -3 ∨ n > 65536 then bad else (sl.set! i (HashMap.ofSize n), "ok 0")
         | none => bad
       | "ins", [k] => match kc.parse k with
         | some k => let a' := HashMap.sIns h a k; (sl.set! i a', s!"ok {a'.n}")
@@ -226,27 +226,71 @@ def sets {K : Type} [DecidableEq K] (h : K → Nat) (kc : Codec K)
       | _, _ => bad
   | _ => bad
 
+/-- One family of hash containers with HANDLE semantics: `slots[i]` names the table the i-th C++ object refers
+to; `HashMap(const HashMap&)` / `operator=` (op `share`) make two slots name the same table; operations that
+assign a new object to a slot (`new`, `clone`, `from`, `union`, `inter`, `diff`) bind it to a fresh table.  The
+reference count a table's operations see is the number of slots naming it. -/
+structure Fam (K V : Type) where
+  tabs : Array (HashMap.HM K V)
+  slots : Array Nat
+
+def Fam.init {K V : Type} : Fam K V :=
+  { tabs := Array.replicate NS (HashMap.empty Gen.HashMap.defaultBuckets), slots := Array.range NS }
+
+def Fam.view {K V : Type} (f : Fam K V) : Array (HashMap.HM K V) :=
+  f.slots.map fun t =>
+    let m := f.tabs.getD t (HashMap.empty Gen.HashMap.defaultBuckets)
+    { m with rc := (f.slots.filter (· == t)).size }
+
+def rebinding (op : String) : Bool := op ∈ ["new", "clone", "from", "union", "inter", "diff"]
+
+/-- run an op of the value-level interpreter `run` on the handle-level state -/
+def Fam.step {K V : Type} (run : Array (HashMap.HM K V) → List String → Array (HashMap.HM K V) × String)
+    (f : Fam K V) (ts : List String) : Fam K V × String :=
+  match ts with
+  | ["share", s, t] => match slotOf s, slotOf t with
+    | some i, some j =>
+      let f' := { f with slots := f.slots.set! j (f.slots.getD i 0) }
+      (f', s!"ok {((f'.view).getD j (HashMap.empty 1)).n}")
+    | _, _ => (f, "bad-op")
+  | op :: args =>
+    let v := f.view
+    let (v', out) := run v ts
+    -- the slot the op writes: second slot argument for `clone`, first otherwise
+    let tgt := match op, args with
+      | "clone", [_, t] => slotOf t
+      | _, s :: _ => slotOf s
+      | _, _ => none
+    match tgt with
+    | none => (f, out)
+    | some j =>
+      let m := v'.getD j (HashMap.empty Gen.HashMap.defaultBuckets)
+      if out == "bad-op" then (f, out)
+      else if rebinding op then
+        ({ tabs := f.tabs.push { m with rc := 1 }, slots := f.slots.set! j f.tabs.size }, out)
+      else ({ f with tabs := f.tabs.set! (f.slots.getD j 0) m }, out)
+  | _ => (f, "bad-op")
+
 structure St where
   mi : Array (List (Int × Int))
   ds : Array (List (Bytes × Bytes))
-  hi : Array (HashMap.HM Int Int)
-  hs : Array (HashMap.HM Bytes Int)
-  si : Array (HashMap.HSet Int)
-  ss : Array (HashMap.HSet Bytes)
+  hi : Fam Int Int
+  hs : Fam Bytes Int
+  si : Fam Int Int
+  ss : Fam Bytes Int
 
 def init : St :=
   { mi := Array.replicate NS [], ds := Array.replicate NS [],
-    hi := Array.replicate NS (HashMap.empty Gen.HashMap.defaultBuckets), hs := Array.replicate NS (HashMap.empty Gen.HashMap.defaultBuckets),
-    si := Array.replicate NS (HashMap.empty Gen.HashMap.defaultBuckets), ss := Array.replicate NS (HashMap.empty Gen.HashMap.defaultBuckets) }
+    hi := Fam.init, hs := Fam.init, si := Fam.init, ss := Fam.init }
 
 def step (st : St) (ts : List String) : St × String :=
   match ts with
   | "mi" :: r => let (x, o) := ordered Map.cmpInt intCodec intCodec 0 st.mi r; ({ st with mi := x }, o)
   | "ds" :: r => let (x, o) := ordered Map.cmpBytes bytesCodec bytesCodec [] st.ds r; ({ st with ds := x }, o)
-  | "hi" :: r => let (x, o) := hashed HashMap.hashInt intCodec intCodec 0 st.hi r; ({ st with hi := x }, o)
-  | "hs" :: r => let (x, o) := hashed HashMap.hashBytes bytesCodec intCodec 0 st.hs r; ({ st with hs := x }, o)
-  | "si" :: r => let (x, o) := sets HashMap.hashInt intCodec st.si r; ({ st with si := x }, o)
-  | "ss" :: r => let (x, o) := sets HashMap.hashBytes bytesCodec st.ss r; ({ st with ss := x }, o)
+  | "hi" :: r => let (x, o) := st.hi.step (hashed HashMap.hashInt intCodec intCodec 0) r; ({ st with hi := x }, o)
+  | "hs" :: r => let (x, o) := st.hs.step (hashed HashMap.hashBytes bytesCodec intCodec 0) r; ({ st with hs := x }, o)
+  | "si" :: r => let (x, o) := st.si.step (sets HashMap.hashInt intCodec) r; ({ st with si := x }, o)
+  | "ss" :: r => let (x, o) := st.ss.step (sets HashMap.hashBytes bytesCodec) r; ({ st with ss := x }, o)
   | _ => (st, "bad-op")
 
 end Driver.C02
